@@ -1,6 +1,6 @@
 (* HandlerFacts.v — what single handlers do, for every state (hence every world, fault plan, lease and crash flag). *)
 From WF Require Import model.Base model.RunState model.Routing model.Graph model.Counter model.Shard model.EngineBase
-  model.Engine model.Monitors proofs.Hoare proofs.EngineInv proofs.EngineTokens.
+  model.Engine model.Monitors proofs.Hoare proofs.EngineInv proofs.EngineTokens proofs.Frame.
 
 Section HF.
 Variable c : econfig.
@@ -274,6 +274,39 @@ Proof.
   assert (Ep : rs_eqb (r_state r) RSPaused = true) by (rewrite Hs; reflexivity). rewrite Ep. cbn [negb].
   unfold bind at 1, get_w. cbn [fst snd].
   assert (E : (r_updated r >? w_now (o_w s1) - ec_retry c) = false) by (rewrite Z.gtb_ltb; apply Z.ltb_ge; lia). rewrite E. reflexivity.
+Qed.
+
+(* ---------- C02: an undeclared destination ---------- *)
+(* update.go newUpdater, for EVERY state: with an UNDECLARED destination the updater never writes; it returns an error when
+   the run still has the status the function was invoked at (and nil only when the run has moved on meanwhile) *)
+Lemma p_lookup_world run s : o_w (snd (p_lookup run s)) = o_w s.
+Proof.
+  unfold p_lookup. match goal with |- context [prim ?k ?ctx ?T ?E ?X s] => destruct (prim_spec2 k ctx T E X s) as (d & s1 & W & _ & _ & _ & _ & R) end.
+  rewrite R. destruct d; cbn; rewrite W; cbn; reflexivity.
+Qed.
+
+Theorem updater_undeclared cur next run s :
+  validate_transition (ec_graph c) cur next = false ->
+  o_w (snd (updater c cur next run s)) = o_w s /\
+  (forall l s1, p_lookup (r_run run) s = (Ok (Some l), s1) -> r_status l = cur -> fst (updater c cur next run s) = Err EGen).
+Proof.
+  intros Hv.
+  assert (Hu : updater c cur next run s =
+               match p_lookup (r_run run) s with
+               | (Ok (Some l), s1) => if negb (r_status l =? cur) then (Ok tt, s1) else (Err EGen, s1)
+               | (Ok None, s1) => (Err EGen, s1)
+               | (Err e, s1) => (Err e, s1)
+               end).
+  { unfold updater. unfold bind at 1, get_w. cbn [fst snd]. unfold bind at 1.
+    destruct (p_lookup (r_run run) s) as [[[l|]|e] s1]; try reflexivity.
+    destruct (negb (r_status l =? cur)); [reflexivity|]. rewrite Hv. reflexivity. }
+  rewrite Hu. pose proof (p_lookup_world (r_run run) s) as W.
+  destruct (p_lookup (r_run run) s) as [[[l|]|e] s1] eqn:E; cbn [fst snd] in *.
+  - destruct (r_status l =? cur) eqn:Es; cbn [negb fst snd].
+    + split; [exact W|]. intros l' s1' H _. reflexivity.
+    + split; [exact W|]. intros l' s1' H Hs. inversion H; subst. apply Z.eqb_neq in Es. congruence.
+  - split; [exact W|]. intros l' s1' H. discriminate.
+  - split; [exact W|]. intros l' s1' H. discriminate.
 Qed.
 
 End HF.
